@@ -55,7 +55,7 @@ ASSUMPTIONS = [
     "sampling of scenarios; exhaustive only over close() injection points of each scenario in the thorough tier",
 ]
 MUST_FIRE = {
-    "quick": ["close_phase=before_first_step", "close_phase=backoff_sleep", "close_phase=pending_attempt", "close_phase=connected", "soak_runs", "outage_over_1024_failures"],
+    "quick": ["close_phase=before_first_step", "close_phase=backoff_sleep", "close_phase=pending_attempt", "close_phase=connected", "soak_runs", "outage_over_1024_failures", "default_config_outage_reached_cap"],
     "thorough": ["close_phase=backoff_sleep", "close_phase=pending_attempt", "close_phase=connected", "close_same_iter=attempt_end", "close_same_iter=loss", "soak_runs", "loss_injected_at_iteration", "close_called_again"],
 }
 
@@ -79,6 +79,10 @@ def _base(rng, index):
         return _soak(rng)
     if index % 400 == 23:
         return _outage(rng)
+    if index % 25 == 11:
+        # an outage under the default configuration: the back-off climbs 1, 2, 4, ... to its cap of 60 s and must keep retrying there
+        return {"kind": "script", "script": [{"o": "fail", "d": rng.choice([0, 0, 0.5]), "exc": rng.choice(EXC), "noargs": rng.random() < 0.3} for _ in range(rng.randint(1, 3))], "cycle": False,
+                "tail": {"o": "fail", "d": 0}, "cfg": {"max_delay": None, "thr": None, "slp": None}, "stream": None, "close": None, "jump": None, "restart": None, "horizon": 400.0, "default_outage": True}
     script = [_spec(rng) for _ in range(rng.randint(1, 6))]
     tail = rng.choice(
         [
@@ -225,6 +229,8 @@ def execute(sc):
         nontrivial = kw["phase"] not in ("before_first_attempt", "loop_not_running", "before_first_step")
     elif sc.get("kind") != "soak":
         nontrivial = faults["connect_fail"] + faults["loss"] > 0
+    if sc.get("default_outage") and sc.get("close") is None:
+        probes["default_config_outage_reached_cap"] = 1 if rig.attempts >= 9 else 0
     probes["max_pending_tasks"] = 0  # reported through max below
     return {
         "violations": viol,
